@@ -161,24 +161,25 @@ void tickit_bindings_unbind_event_id(struct TickitBindings *bindings, void *owne
 
 void tickit_bindings_unbind_and_destroy(struct TickitBindings *bindings, void *owner)
 {
-  /* TICKIT_EV_DESTROY events need to run in reverse order. Since the bindings
-   * is singly-linked it is easiest just to reverse it then iterate.
+  /* TICKIT_EV_DESTROY events need to run in reverse order. Each binding is
+   * detached from the end of the list before it is invoked, because the
+   * handler may itself bind, unbind or run events on this object
    */
-  struct TickitBinding *revbinds = NULL;
-  for(struct TickitBinding *bind = bindings->first; bind; /**/) {
-    struct TickitBinding *this = bind;
-    bind = bind->next;
+  while(bindings->first) {
+    struct TickitBinding **bindp = &bindings->first;
+    while((*bindp)->next)
+      bindp = &(*bindp)->next;
 
-    this->next = revbinds;
-    revbinds = this;
-  }
+    struct TickitBinding *bind = *bindp;
+    *bindp = NULL;
 
-  for(struct TickitBinding *bind = revbinds; bind;) {
-    struct TickitBinding *next = bind->next;
-    if(bind->evindex == 0 ||
-        bind->flags & (TICKIT_EV_UNBIND|TICKIT_EV_DESTROY))
-      (*bind->fn)(owner, TICKIT_EV_UNBIND|TICKIT_EV_DESTROY, NULL, bind->data);
+    TickitEventFn *fn = bind->fn;
+    void *data = bind->data;
+    bool notify = bind->evindex == 0 ||
+        bind->flags & (TICKIT_BIND_UNBIND|TICKIT_BIND_DESTROY);
     free(bind);
-    bind = next;
+
+    if(notify)
+      (*fn)(owner, TICKIT_EV_UNBIND|TICKIT_EV_DESTROY, NULL, data);
   }
 }
